@@ -49,16 +49,16 @@ func init() {
 			"A case is one run (value x encoding x fault kind); distinct = distinct event-log digest; non-trivial = at least one storage fault was applied and decoded.",
 		StateDef: "distinct (family, encoding, fault kind, value shape) tuples; plus measured coverage of the small spaces (see small_spaces)",
 		Engines: []props.Engine{
-			{Name: "enum", Variant: "plain", Run: RunEnum, QuickRuns: 12000, Share: 0.5, MinThorough: 60000, RunTimeout: 120 * time.Second},
-			{Name: "stack", Variant: "plain", Run: RunStack, QuickRuns: 40000, Share: 0.3, MinThorough: 200000, RunTimeout: 120 * time.Second},
-			{Name: "small", Variant: "plain", Run: RunSmall, QuickRuns: 60000, Share: 0.2, MinThorough: 400000, RunTimeout: 120 * time.Second},
+			{Name: "enum", Variant: "plain", Run: RunEnum, QuickRuns: 12000, Share: 0.5, MinThorough: 60000, RunTimeout: 30 * time.Second},
+			{Name: "stack", Variant: "plain", Run: RunStack, QuickRuns: 40000, Share: 0.3, MinThorough: 200000, RunTimeout: 30 * time.Second},
+			{Name: "small", Variant: "plain", Run: RunSmall, QuickRuns: 60000, Share: 0.2, MinThorough: 400000, RunTimeout: 30 * time.Second},
 		},
 		Real: []string{"encoding/wkb", "encoding/ewkb", "encoding/internal/wkbcommon", "encoding/wkt", "geojson (JSON and BSON)", "encoding/mvt", "encoding/json", "go.mongodb.org/mongo-driver/bson", "compress/gzip", "paulmach/protoscan"},
 		Stub: []string{"storage (simio fault catalogue applied to stored blobs)", "faulty io.Reader under the stream decoders"},
 		Assumptions: []string{
 			"which error a decoder returns is never checked; a decoder may accept damaged bytes as some other valid value",
 			"allocation is measured with runtime/metrics /gc/heap/allocs:bytes (exact for large objects, lagging by at most one span per size class for small ones); bound 512*len + 8 MiB (gzip: 1100*len + 8 MiB)",
-			"hangs are caught by the worker's wall-clock watchdog (120 s for microsecond work) and attributed through the journal",
+			"hangs are caught by the worker's wall-clock watchdog (30 s for runs that take well under a second) and attributed through the journal and the watchdog's goroutine dump",
 		},
 		Spaces: []props.Space{{}, {Name: "tile blobs of 0-2 bytes", Total: 65793}, {Name: "WKB header tuples (order byte x type word x count x srid flag x truncation)", Total: wkbHeaderTotal()}, {Name: "WKT sentences of <= 5 tokens over a 16-token alphabet", Total: 1118481},
 			{Name: "JSON sentences of <= 4 tokens over a 16-token alphabet", Total: 69905}},
@@ -557,7 +557,7 @@ func RunEnum(t *core.T) {
 	if exhaustive {
 		t.Probe("blobs_with_every_" + kind + "_enumerated")
 	} else {
-		t.Probe("blobs_with_sampled_bitflips")
+		t.Probe("blobs_with_sampled_" + kind)
 	}
 	t.Logf("%d %s faults applied, %d decodes", n, kind, c.decodes)
 	t.Op()
